@@ -293,9 +293,61 @@ def consumer_state_untouched():
     return out
 
 
+def consumer_metrics_untouched():
+    """"the consumer's own ... metrics scope ... unaffected after the stream ends": what the generator records belongs to the
+    stream's scope (nested where the stream was *created*); a consumer in another scope finds, after the stream, only its own
+    records in its scope - own values and merged view - and completes on its own."""
+    out = []
+
+    class Produced(State):
+        n: int = 0
+
+    class Consumed(State):
+        n: int = 0
+    add = lambda a, b: b if not a else type(a)(n=a.n + b.n)      # noqa: E731
+
+    async def numbers():
+        for i in range(3):
+            ctx.record(Produced(n=1), merge=add)
+            yield i
+
+    async def main():
+        for where in ("beside the creator", "nested in the creator"):
+            done = {}
+
+            async def consume(stream):
+                async with ctx.scope("consumer", completion=lambda m: done.update(consumer=m)):
+                    got = [x async for x in stream]
+                    ctx.record(Consumed(n=len(got)), merge=add)
+            async with ctx.scope("top", completion=lambda m: done.update(top=m)):
+                async with ctx.scope("creator", completion=lambda m: done.update(creator=m)):
+                    stream = ctx.stream(numbers)
+                    if where == "nested in the creator":
+                        await consume(stream)
+                if where == "beside the creator":
+                    await consume(stream)
+            for _ in range(6):
+                await asyncio.sleep(0)
+            c = done.get("consumer")
+            if c is None:
+                out.append(f"consumer scope {where}: it never completed")
+                continue
+            merged = {type(x).__name__: x.n for x in c.metrics(merge=add)}
+            if c.read(Produced) is not None or merged != {"Consumed": 3}:
+                out.append(f"consumer scope {where}: after the stream its metrics are own={c.read(Produced)}/{c.read(Consumed)}, "
+                           f"merged={merged}; expected only its own Consumed(n=3) - the generator's records belong to the stream's scope")
+            cr = done.get("creator")
+            if cr is not None:
+                mc = {type(x).__name__: x.n for x in cr.metrics(merge=add)}
+                if mc.get("Produced") != 3:
+                    out.append(f"creator scope ({where}): merged view {mc}, expected the stream's Produced(n=3) nested under it")
+    asyncio.run(main())
+    return out
+
+
 def main():
     sys.stdin.read()
-    p = problems() or source_kinds() or consumer_state_untouched()
+    p = problems() or source_kinds() or consumer_state_untouched() or consumer_metrics_untouched()
     if p:
         print(json.dumps(dict(reproduced=True, detail=dict(problems=p[:5]), cases_tried=1)))
     else:
